@@ -109,6 +109,12 @@ def gen_cases(tier, seed):
             spec2 = gen_tree(r, "src2")
             gi2, _ = gen_gitignore(r, spec2)
             second = {"spec": spec2, "gitignore": gi2 if r.random() < 0.7 else None}
+        if second is None and not any(e["k"] == "l" for e in spec) and r.random() < 0.5:
+            # the source directory named through a symbolic link, with -L (the tree itself has no links, so -L changes nothing else):
+            # the ignore file that counts is the one of the directory that is walked
+            yield {"second": None, "spec": spec + [{"p": "lsrc", "k": "l", "target": r.choice(["src", "@ROOT@/src"])}], "gitignore": gi, "forms": forms, "driver": driver, "use": r.random() < 0.9,
+                   "fs": "ext4", "extra": ["-L"], "srcarg": r.choice(["lsrc", "lsrc", "lsrc/", "./lsrc"]), "w": r.choice([0, 1, 2, 4])}
+            continue
         yield {"second": second, "spec": spec, "gitignore": gi, "forms": forms, "driver": driver, "use": r.random() < 0.85, "fs": "ext4",
                "extra": r.choice([[], [], [], ["--fsync"], ["--no-perms"], ["--no-progress"], ["--reflink", "never"], ["--backup", "auto"]]),
                "srcarg": r.choice(["src", "src", "src/", "./src", "@ROOT@/src"]), "w": r.choice([0, 1, 2, 4])}
